@@ -280,18 +280,26 @@ def report(
     lines: list[str] = []
     confirmed = 0
     known_hit: dict[str, int] = {}
-    os.makedirs(os.path.join(VERIF_DIR, "replays"), exist_ok=True)
+    replay_dir = os.environ.get("VERIF_REPLAY_DIR") or os.path.join(VERIF_DIR, "replays")
+    evidence_dir = os.environ.get("VERIF_EVIDENCE_DIR") or os.path.join(VERIF_DIR, "evidence")
+    os.makedirs(replay_dir, exist_ok=True)
+    os.makedirs(evidence_dir, exist_ok=True)
     per_cls: dict[str, int] = {}
-    max_per_cls = int(os.environ.get("VERIF_CONFIRM_PER_CLASS", "2"))
-    for sig, (v, rp) in sorted(candidates.items()):
+    max_per_cls = int(os.environ.get("VERIF_CONFIRM_PER_CLASS", "1"))
+    max_total = int(os.environ.get("VERIF_CONFIRM_TOTAL", "4"))
+    t_min_end = time.time() + float(os.environ.get("VERIF_MINIMISE_TOTAL_S", str(minimise_budget)))
+    skipped_same = 0
+    # shortest replay first: cheapest to confirm and closest to minimal
+    for sig, (v, rp) in sorted(candidates.items(), key=lambda kv: (len(kv[1][1].get("ops", [])), kv[0])):
         k = match_known(prop, sig, known)
         if k is not None:
             known_hit[k["id"]] = known_hit.get(k["id"], 0) + 1
             continue
         cls = v.get("cls", sig)
         per_cls[cls] = per_cls.get(cls, 0) + 1
-        if per_cls[cls] > max_per_cls:
-            continue  # same violation class already confirmed/reported
+        if per_cls[cls] > max_per_cls or confirmed >= max_total:
+            skipped_same += 1
+            continue  # same violation class already confirmed/reported, or enough reported
         # confirmation in a fresh interpreter
         res = replay_plan(rp, timeout=replay_timeout)
         if not has_sig(res, sig):
@@ -299,8 +307,9 @@ def report(
             harness.append(f"unconfirmed violation {sig}: {v.get('detail', '')} (replay status {res.get('status')}, sigs {[x.get('sig') for x in res.get('violations', [])][:3]})")
             continue
         confirmed += 1
-        small, tried = minimise(rp, sig, budget_s=minimise_budget, timeout=replay_timeout) if len(rp.get("ops", [])) > 1 else (rp, 0)
-        path = os.path.join(VERIF_DIR, "replays", f"{prop}-{seed}-{digest(sig)}.json")
+        left = t_min_end - time.time()
+        small, tried = minimise(rp, sig, budget_s=left, timeout=replay_timeout) if (len(rp.get("ops", [])) > 1 and left > 20) else (rp, 0)
+        path = os.path.join(replay_dir, f"{prop}-{seed}-{digest(sig)}.json")
         write_json(path, {"property": prop, "expected_sig": sig, "detail": v.get("detail"), "plan": small, "minimise_candidates": tried, "seed": seed})
         lines.append(f"VIOLATION property={prop} replay={path}")
         lines.append(f"  sig={sig} detail={str(v.get('detail'))[:400]}")
@@ -323,11 +332,12 @@ def report(
     cov = ev.setdefault("coverage", {})
     cov["raw_violation_reports"] = n_viol_raw
     cov["violation_classes_seen"] = per_cls
+    cov["violation_reports_not_individually_confirmed"] = skipped_same
     cov["known_findings_seen"] = known_hit
     cov["harness_errors"] = len(harness)
     cov["interpreters"] = sum(1 for r in results if r is not None)
     cov["interpreters_not_started_deadline"] = sum(1 for r in results if r is None)
-    write_json(os.path.join(VERIF_DIR, "evidence", f"{prop}.json"), ev)
+    write_json(os.path.join(evidence_dir, f"{prop}.json"), ev)
     for ln in lines:
         print(ln)
     print(f"[{prop}] tier={tier} seed={seed} interpreters={cov['interpreters']} wall={wall:.1f}s confirmed_violations={confirmed} known={sum(known_hit.values())} harness_errors={len(harness)} -> exit {exit_code}")
